@@ -20,13 +20,16 @@ theorem clock_eq_length (pd0 : Nat) (acts : List Act) : (run (init pd0) acts).cl
   | cons a as ih => intro s; simp only [run, List.foldl_cons, List.length_cons] at ih ⊢; rw [ih]; simp [step]; omega
 
 /-- The low-resolution timestamp never decreases, along every schedule (every interleaving of the
-    load / compare / CAS steps of concurrent `setLastTS` calls and every arrival order). -/
+    load / compare / CAS steps of concurrent `setLastTS` calls and every arrival order).  Schedules contain
+    foreground calls, validation flights AND ticks of the background updater (`Act.startUpd`), whose
+    response may arrive arbitrarily late. -/
 theorem lowres_monotone (pd0 : Nat) (acts more : List Act) :
     optLe (run (init pd0) acts).lowTs (run (init pd0) (acts ++ more)).lowTs := by
   rw [run_append]
   exact optLe_of_lowMono (lowMono_run (inv_run pd0 acts) more)
 
-/-- The low-resolution timestamp never exceeds the largest timestamp PD has issued. -/
+/-- The low-resolution timestamp never exceeds the largest timestamp PD has issued (same schedules,
+    updater ticks included). -/
 theorem lowres_le_issued (pd0 : Nat) (acts : List Act) (ts : Nat)
     (h : (run (init pd0) acts).lowTs = some ts) : ts ≤ (run (init pd0) acts).pdLast := by
   have inv := inv_run pd0 acts
@@ -198,6 +201,19 @@ example : (run (init 10) reordered).lowTs = some 12 ∧ ((run (init 10) reordere
 -- lowres_monotone / lowres_le_issued / returned_le_lowres are exercised with a present cached value:
 example : optLe (run (init 10) (getAll 0)).lowTs (run (init 10) (getAll 0 ++ getAll 1)).lowTs := by decide
 example : (run (init 10) (getAll 0 ++ getAll 1)).lowTs = some 12 := by decide
+/-- the background updater's tick (thread 7) is assigned 12, then a foreground call is assigned 13 and publishes it;
+    the updater's response arrives late: the cached ts stays 13 -/
+def lateUpdater : List Act :=
+  getAll 0 ++
+  [.startUpd 7, .run 7 0, .run 7 0, .pdIssue 7 0,                 -- Range finds the entry, request sent, PD assigns 12
+   .startGet 1, .run 1 0, .pdIssue 1 0,                            -- foreground call is assigned 13
+   .run 1 0, .run 1 0, .run 1 0, .run 1 0, .run 1 0,               -- … arrives and publishes 13
+   .run 7 0, .run 7 0, .run 7 0, .run 7 0]                         -- the late response: arrive, map load, load, compare
+example : (run (init 10) lateUpdater).lowTs = some 13 ∧ ((run (init 10) lateUpdater).thr 7).pc = .gDone
+    ∧ ((run (init 10) lateUpdater).thr 7).ts = 12 ∧ ((run (init 10) lateUpdater).thr 1).pc = .gDone := by decide
+-- a tick on an oracle without any cached scope does nothing
+example : ((run (init 10) [.startUpd 7, .run 7 0]).thr 7).pc = .uFin := by decide
+
 -- issued_strict: thread 1 waits at PD while thread 0 holds 11
 example : ((run (init 10) (getAll 0 ++ [.startGet 1, .run 1 0])).thr 1).pc = .gWait
     ∧ hasTs ((run (init 10) (getAll 0 ++ [.startGet 1, .run 1 0])).thr 0).pc = true := by decide
